@@ -101,8 +101,8 @@ ALIGNS = ["center", "top_left", "top_right", "bottom_left", "bottom_right"]
 # translator (translator/c17.py: a parameter that is not classified there fails closed).
 VARIANTS = {
     "ill_uniform": [dict(ts=False), dict(ts=True)],
-    "ill_rect": [dict(ts=False, center=False), dict(ts=True, center=True)],
-    "ill_ellip": [dict(ts=True, center=False), dict(ts=False, center=True)],
+    "ill_rect": [dict(ts=False, center=False), dict(ts=True, center=True), dict(ts=True)],
+    "ill_ellip": [dict(ts=True, center=False), dict(ts=False, center=True), dict(ts=True, center=True)],
     "load_image": [dict(), dict(mult=True), dict(ts=True), dict(mult=True, ts=True, fmt="fits"),
                    dict(convert=True), dict(convert=True, mult=True), dict(convert=True, ts=True),
                    dict(convert=True, mult=True, ts=True, place="position"),
@@ -142,7 +142,7 @@ def gen_model(r, kind, det, dy, variant=None):
     elif kind in ("ill_rect", "ill_ellip"):
         m = dict(m="illumination", level=H(gen_level(r, dy)), option="rectangular" if kind == "ill_rect" else "elliptic",
                  object_size=[r.randrange(1, rows + 2), r.randrange(1, cols + 2)])
-        if v.get("center", r.random() < 0.5):
+        if v.get("center", False):
             m["object_center"] = [r.randrange(0, rows + 1), r.randrange(0, cols + 1)]
     elif kind == "load_image":
         m = dict(m="load_image", data=gen_data(r, n, dy), fmt=v.get("fmt") or r.choice(["npy", "npy", "fits"]))
@@ -183,8 +183,7 @@ def gen_model(r, kind, det, dy, variant=None):
         m = dict(m="qe_map", data=[H(v) for v in vals], fmt="npy")
     else:
         raise ValueError(kind)
-    if kind in ("ill_uniform", "ill_rect", "ill_ellip", "load_image", "stripe", "load_charge") and \
-            v.get("ts", r.random() < 0.7):
+    if kind in ("ill_uniform", "ill_rect", "ill_ellip", "load_image", "stripe", "load_charge") and v.get("ts", False):
         m["time_scale"] = H(gen_ts(r, dy))
     return m
 
@@ -419,6 +418,157 @@ def build_lin(item, res):
     return out
 
 
+# ------------------------------------------------------------------------------------------ translated rows
+
+TABLE = {"st": None}     # the structure returned by translator/c17.py for the tree under test (set by run / replay)
+
+FAMILY = {"illumination": ["ill_uniform", "ill_rect", "ill_ellip"], "load_image": ["load_image"],
+          "stripe_pattern": ["stripe"], "load_charge": ["load_charge"], "dark_current": ["dark_current"],
+          "dark_current_rule07": ["dark_current_rule07"]}
+
+
+class Skip(Exception):
+    """The translated row of this configuration cannot be evaluated (unknown variable, no row, ...): the case is
+    not judged (counted in the coverage), it is never an alarm."""
+
+
+def cond_true(cond: str, kw: dict) -> bool:
+    try:
+        return bool(eval(compile(cond, "<option>", "eval"), {"__builtins__": {}, "len": len, "isinstance": isinstance,  # noqa: S307
+                                                             "min": min, "max": max, "abs": abs, "bool": bool,
+                                                             "int": int, "float": float}, dict(kw)))
+    except Exception as ex:  # noqa: BLE001
+        raise Skip(f"option condition {cond!r} cannot be evaluated: {type(ex).__name__}") from ex
+
+
+def decode_kw(j):
+    return {k: (float.fromhex(v["hex"]) if isinstance(v, dict) and "hex" in v else v) for k, v in (j or {}).items()}
+
+
+def approx_kw(m):
+    """Harness-side view of the keyword arguments the driver passes for a generated model (used only to aim the
+    failing-input search at the option branches of a table row)."""
+    k = m["m"]
+    kw = {}
+    if "time_scale" in m:
+        kw["time_scale"] = float.fromhex(m["time_scale"])
+    if k == "load_image":
+        kw.update(convert_to_photons=bool(m.get("convert")), bit_resolution=m.get("bit_resolution"),
+                  include_header=False, align=m.get("align"))
+        if "multiplier" in m:
+            kw["multiplier"] = float.fromhex(m["multiplier"])
+    elif k in ("dark_current", "dark_current_rule07"):
+        kw.update(temporal_noise=False, spatial_noise_factor=None)
+        if m.get("band_gap") is not None:
+            kw.update(band_gap=float.fromhex(m["band_gap"]), band_gap_room_temperature=float.fromhex(m["band_gap_rt"]))
+        if m.get("cutoff") is not None:
+            kw["cutoff_wavelength"] = float.fromhex(m["cutoff"])
+    return kw
+
+
+def table_entry(kind):
+    st = TABLE["st"]
+    if st is None:
+        raise Skip("no table")
+    key = next((k for k, v in st["models"].items() if v["kind"] == kind and v["expr"]), None)
+    if key is None:
+        raise Skip(f"no expression-shaped table entry for {kind}")
+    return key, st["models"][key]
+
+
+def row_of(kind, kw):
+    """(index, row) of the rate_table row whose option conditions hold for these keyword arguments."""
+    from translator import c17 as tr
+
+    key, info = table_entry(kind)
+    full = dict(info["defaults"])
+    full.update(kw)
+    rows = [(i, r) for i, r in enumerate(TABLE["st"]["rows"])
+            if r["model"] == key and all(cond_true(c, full) for c in r["conds"])]
+    if len(rows) != 1:
+        raise Skip(f"{len(rows)} table rows match the options of {kind}")
+    del tr
+    return rows[0][0], rows[0][1], full
+
+
+def provide(nm, det, m, aux, kw, n):
+    """('s', Fraction) | ('p', [Fraction]*n) | None: the value of a table variable for this configured model."""
+    if nm in kw:
+        v = kw[nm]
+        if isinstance(v, bool) or not isinstance(v, (int, float)):
+            return None
+        return "s", Fraction(v)
+    if nm.startswith("detector."):
+        v = (aux.get("detvars") or {}).get(nm)
+        return None if v is None else ("s", fr(v))
+    if nm.startswith("call:"):
+        base = nm[5:].split("#")[0]
+        if base == "load_cropped_and_aligned_image" and m["m"] in ("load_image", "load_charge"):
+            img = [fr(v) for v in (aux["image"] if "image" in aux else m["data"])]
+            return ("p", img) if len(img) == n else None
+        if base in ("calculate_illumination", "compute_pattern") and m["m"] in ("illumination", "stripe_pattern"):
+            if "pattern_level" in aux:
+                pat = [fr(v) for v in aux["pattern_level"]]
+            else:
+                mask = [fr(v) for v in aux["pattern"]] if "pattern" in aux else [Fraction(1)] * n
+                pat = [fr(m["level"]) * x for x in mask]
+            return ("p", pat) if len(pat) == n else None
+        if base in ("simulate_dark_signal", "average_dark_current_rule07") and "rate" in aux:
+            rate = [fr(v) for v in aux["rate"]]
+            return ("p", rate) if len(rate) == n else None
+    return None
+
+
+def expr_vars(e):
+    from translator import c17 as tr
+
+    return sorted({a[1] for a in tr.atoms(e) if a[0] == "var"}), [a for a in tr.atoms(e) if a[0] == "bad"]
+
+
+def build_rate(item, res):
+    """The translated expression of the configured model's option branch, evaluated inside Coq on the actual
+    arguments, against the increments the implementation produced."""
+    p = item["payloads"][0]
+    det, m = p["det"], p["model"]
+    n = det["rows"] * det["cols"]
+    aux = res.get("aux", {})
+    idx, row, kw = row_of(m["m"], decode_kw(aux.get("kw")))
+    names, bads = expr_vars(row["expr"])
+    if row.get("random") or bads:
+        raise Skip("the row is not a deterministic arithmetic expression")
+    scal, pix = [], [[] for _ in range(n)]
+    for nm in names:
+        v = provide(nm, det, m, aux, kw, n)
+        if v is None:
+            raise Skip(f"no value for table variable {nm}")
+        if v[0] == "s":
+            scal.append(f"({core.cstr(nm)}, {Q(v[1])})")
+        else:
+            for i in range(n):
+                pix[i].append(f"({core.cstr(nm)}, {Q(v[1][i])})")
+    obs = []
+    for rec in res["steps"]:
+        e = rec.get("empty")
+        if not e or "raise" in e or e.get(bucket_of(m)) is None:
+            raise ValueError(f"model call failed: {e}")
+        obs.append([fr(v) for v in e[bucket_of(m)]])
+    exact = exact_possible([m], [aux])
+    return (f"{{| rc_tol := {Q(tol_of(item, exact))}; rc_row := {idx}%nat; rc_env := {core.clist(scal)}; "
+            f"rc_pix := {core.clist(core.clist(x) for x in pix)}; rc_steps := {QL(fr(s) for s in p['steps'])}; "
+            f"rc_obs := {core.clist(QL(o) for o in obs)} |}}")
+
+
+RATE_HEADER = ("From Coq Require Import QArith List String.\nFrom PyxelV Require Import Model.Flux Model.FluxExpr.\n"
+               "From PyxelGen Require Import Gen_C17.\nImport ListNotations.\nOpen Scope string_scope.\n"
+               "Open Scope Q_scope.\n")
+
+
+def emit_rate_file(lits) -> str:
+    body = ";\n  ".join(lits)
+    return (RATE_HEADER + f"Definition cases : list rate_case := [\n  {body}\n].\n"
+            "Eval vm_compute in rate_mismatches rate_table cases.\nEval vm_compute in rate_illposed rate_table cases.\n")
+
+
 HEADER = ("From Coq Require Import QArith List.\nFrom PyxelV Require Import Model.Flux.\n"
           "Import ListNotations.\nOpen Scope Q_scope.\n")
 
@@ -450,6 +600,7 @@ def call_items(ctx, r, n_extra, dy):
                       time=H(r.choice([7.0, 3.0, 11.5])), prefill=pre)
             items.append(dict(type="inc", dy=dy, payloads=[pl], name=kind))
             items.append(dict(type="lin", dy=dy, payloads=[pl], name=kind))
+            items.append(dict(type="rate", dy=dy, payloads=[pl], name=kind))
     for kind in ["simple_conversion", "qe_map", "simple_collection"]:
         for _ in range(max(2, n_extra)):
             det = gen_det(r, small=True, dy=dy)
@@ -522,7 +673,7 @@ def corpus_items():
     out = []
     for f in sorted((core.VERIF / "harness" / "corpus" / "C17").glob("*.json")):
         c = json.loads(f.read_text())
-        if c.get("type") in ("exp", "pair", "scale", "inc", "lin") and c.get("payloads"):
+        if c.get("type") in ("exp", "pair", "scale", "inc", "lin", "rate") and c.get("payloads"):
             out.append({k: c[k] for k in ("type", "dy", "payloads", "c", "refused", "name") if k in c})
     return out
 
@@ -563,8 +714,13 @@ def evaluate(ctx: Ctx, items, tag="c", per=30):
                 lits = [build_scale(it, *rs)]
             elif it["type"] == "inc":
                 lits = [build_inc(it, rs[0])]
+            elif it["type"] == "rate":
+                lits = [build_rate(it, rs[0])]
             else:
                 lits = build_lin(it, rs[0])
+        except Skip as ex:
+            ctx.dist("rate_case", "not judged: " + str(ex)[:90])
+            continue
         except (ValueError, KeyError, TypeError) as ex:
             ctx.broken.append(Broken("correspondence", f"unusable driver result for a {it['type']} case",
                                      f"{type(ex).__name__}: {ex}", it))
@@ -573,17 +729,18 @@ def evaluate(ctx: Ctx, items, tag="c", per=30):
             recs.append(dict(item=it, lit=lit, results=rs, sub=j, mismatch=False, violation=False))
     files, chunks = {}, {}
     # keep files small: a case with many pixels and readouts is a long literal
-    cur, size, k = [], 0, 0
-    for rec in recs:
-        cur.append(rec)
-        size += len(rec["lit"])
-        if len(cur) >= per or size > 600_000:
-            name = f"{tag}_{k:03d}"
-            files[name], chunks[name] = emit_file([x["lit"] for x in cur]), cur
-            cur, size, k = [], 0, k + 1
-    if cur:
-        name = f"{tag}_{k:03d}"
-        files[name], chunks[name] = emit_file([x["lit"] for x in cur]), cur
+    for grp, emit in (("flux", emit_file), ("rate", emit_rate_file)):
+        cur, size, k = [], 0, 0
+        for rec in [x for x in recs if (x["item"]["type"] == "rate") == (grp == "rate")]:
+            cur.append(rec)
+            size += len(rec["lit"])
+            if len(cur) >= per or size > 600_000:
+                name = f"{tag}_{grp[0]}{k:03d}"
+                files[name], chunks[name] = emit([x["lit"] for x in cur]), cur
+                cur, size, k = [], 0, k + 1
+        if cur:
+            name = f"{tag}_{grp[0]}{k:03d}"
+            files[name], chunks[name] = emit([x["lit"] for x in cur]), cur
     t0 = time.time()
     res = core.coq_eval_many(ctx, files, timeout=900, par=8)
     ctx.cov["phase_secs"][f"coq_{tag}"] = round(time.time() - t0, 1)
@@ -593,10 +750,11 @@ def evaluate(ctx: Ctx, items, tag="c", per=30):
         if not ok or len(evals) != 2:
             ctx.broken.append(Broken("correspondence", f"case file {name}.v did not evaluate", core.tail(se, 15)))
             continue
+        is_rate = chunks[name][0]["item"]["type"] == "rate"
         for i in core.parse_int_list(evals[0]):
             chunks[name][i]["mismatch"] = True
         for i in core.parse_int_list(evals[1]):
-            chunks[name][i]["violation"] = True
+            chunks[name][i]["mismatch" if is_rate else "violation"] = True   # an ill-posed rate case is a harness fault
     return recs
 
 
@@ -642,7 +800,7 @@ def clause_of(rec):
 def describe(rec):
     it = rec["item"]
     p = it["payloads"][0]
-    if it["type"] in ("inc", "lin"):
+    if it["type"] in ("inc", "lin", "rate"):
         return (f"{p['model']['m']} called with time steps {[float.fromhex(s) for s in p['steps']]} on a "
                 f"{p['det']['rows']}x{p['det']['cols']} detector")
     ts = [float.fromhex(t) for t in p["times"]]
@@ -763,6 +921,11 @@ def collect(ctx: Ctx, recs, shrink=True):
         it = rec["item"]
         if rec["violation"]:
             by_clause.setdefault(clause_of(rec), []).append(rec)
+        elif rec["mismatch"] and it["type"] == "rate":
+            ctx.broken.append(Broken("correspondence", "translated increment expression (Gen_C17.rate_table) vs implementation",
+                                     "the expression read from the source, evaluated in Coq on the actual arguments, differs "
+                                     "from what the model added (or the case is ill-posed): " + describe(rec),
+                                     dict(type=it["type"], payloads=it["payloads"])))
         elif rec["mismatch"]:
             ctx.broken.append(Broken("correspondence", f"Model/Flux.v vs implementation ({it['type']} case)",
                                      "model and implementation differ, or the generated case is ill-posed: " + describe(rec),
@@ -820,6 +983,13 @@ def coverage(ctx: Ctx, recs):
                 "pixel" in x and any(float.fromhex(v) != 0.0 for v in x["pixel"][-1]) for x in rec["results"])
         else:
             ctx.dist("model_called", p["model"]["m"] + (":" + p["model"].get("option", "") if p["model"]["m"] == "illumination" else ""))
+            if t == "inc":
+                mm = p["model"]
+                opts = [k for k in ("time_scale", "multiplier", "convert", "position", "align", "data_shape", "angle",
+                                    "band_gap", "cutoff", "object_center") if mm.get(k) not in (None, False)]
+                ctx.dist("options_called", mm["m"] + "(" + ",".join(opts) + ")")
+            if t == "rate":
+                ctx.dist("rate_case", "judged in Coq against the translated row")
             nontrivial = True
         if nontrivial:
             seen.add(json.dumps([t, it["payloads"], rec.get("sub", 0)], sort_keys=True))
@@ -836,7 +1006,7 @@ def run(ctx: Ctx):
         "Non-dyadic stream: relative tolerance 1e-9, reported separately in the distribution",
         "stripe_pattern only on even detector shapes (it returns a smaller array on odd shapes - outside this property)",
     ]
-    core.proof_leg(ctx, {}, PROP_FILE)
+    proof_ok = translator_leg(ctx)
 
     r = ctx.rng("cases")
     q = ctx.quick
@@ -847,8 +1017,8 @@ def run(ctx: Ctx):
     singles_and_full = [[k] for k in RATE_MODELS] + [list(RATE_MODELS)]
     subsets = singles_and_full if q else all_subsets()
     r.shuffle(subsets)
-    items += exposure_items(ctx, r, 30 if q else 300, 32 if q else 240, 24 if q else 200, True, subsets)
-    items += exposure_items(ctx, ctx.rng("exp-nd"), 12 if q else 80, 8 if q else 50, 8 if q else 50, False)
+    items += exposure_items(ctx, r, 24 if q else 300, 24 if q else 240, 16 if q else 200, True, subsets)
+    items += exposure_items(ctx, ctx.rng("exp-nd"), 8 if q else 80, 6 if q else 50, 6 if q else 50, False)
     items += refused_items(r)
     recs = evaluate(ctx, items)
     seen = coverage(ctx, recs)
@@ -867,7 +1037,45 @@ def run(ctx: Ctx):
         if not ok:
             ctx.broken.append(Broken("theorem", "coqchk of Properties/C17.v", core.tail(out, 20)))
     if ctx.broken and not new_violations(ctx):
-        search(ctx)
+        search(ctx, focus=[] if proof_ok else rejected_rows(ctx))
+
+
+def translator_leg(ctx: Ctx) -> bool:
+    """Regenerate Gen_C17.v from the tree under test (fail closed -> FALLBACK) and check the theorems over it."""
+    from translator import c17 as tr
+
+    try:
+        st = tr.translate_struct(ctx.repo)
+    except core.TranslationError as ex:
+        ctx.broken.append(Broken("translation", "translator/c17.py (time readers / increment expressions)", str(ex)))
+        ctx.log("translation failed (fail closed), continuing with the table of the unchanged tree:", str(ex)[:300])
+        st = tr.fallback_struct()
+    TABLE["st"] = st
+    ctx.cov["translator"] = dict(time_readers=len(st["readers"]), integrating_models=len(st["integrating"]),
+                                 expression_shaped=len(st["expr_models"]), excluded_models=len(st["excluded"]),
+                                 rate_table_rows=len(st["rows"]),
+                                 deterministic_rows=sum(1 for x in st["rows"] if not x.get("random")))
+    return core.proof_leg(ctx, {"Gen_C17.v": tr.render(st)}, PROP_FILE)
+
+
+def rejected_rows(ctx: Ctx):
+    """The rows of the regenerated table that are neither linear in the time step nor random (evaluated in Coq):
+    [(model kind, option conditions)] for the failing-input search."""
+    text = ("From Coq Require Import List.\nFrom PyxelV Require Import Model.FluxExpr.\n"
+            "From PyxelGen Require Import Gen_C17.\nEval vm_compute in bad_rows rate_table.\n")
+    ok, evals, se = core.coq_eval(ctx, "bad_rows", text)
+    st = TABLE["st"]
+    if not ok or not evals or st is None:
+        return []
+    out = []
+    for i in core.parse_int_list(evals[0]):
+        if i < len(st["rows"]):
+            row = st["rows"][i]
+            kind = st["models"].get(row["model"], {}).get("kind")
+            ctx.log(f"table row rejected (not linear in the time step): {row['model']} [{' & '.join(row['conds']) or 'always'}]")
+            out.append((kind, list(row["conds"])))
+    ctx.cov["rejected_rows"] = [f"{k}: {' & '.join(c)}" for k, c in out]
+    return out
 
 
 def new_violations(ctx: Ctx):
@@ -875,14 +1083,57 @@ def new_violations(ctx: Ctx):
     return [v for v in ctx.violations if not any(core.finding_matches(e, v) for e in fs)]
 
 
-def search(ctx: Ctx):
+def focus_items(ctx: Ctx, r, focus, n_calls=24, n_exp=16):
+    """Direct calls and exposures of the models / option branches whose table row the theorem rejected."""
+    items = []
+    for kind, conds in focus:
+        for hk in FAMILY.get(kind, []):
+            made_c = made_e = tries = 0
+            while (made_c < n_calls or made_e < n_exp) and tries < 400:
+                tries += 1
+                det = gen_det(r, need_even=(hk == "stripe"), small=True)
+                m = gen_model(r, hk, det, True)
+                try:
+                    _, info = table_entry(kind)
+                    full = dict(info["defaults"])
+                    full.update(approx_kw(m))
+                    if not all(cond_true(c, full) for c in conds):
+                        continue
+                except Skip:
+                    pass
+                n = det["rows"] * det["cols"]
+                if made_c < n_calls:
+                    steps = []
+                    while len(set(steps)) < 3:
+                        steps = [gen_increment(r, True) for _ in range(3)]
+                    pre = dict(photon=gen_data(r, n, True, 8), charge=gen_data(r, n, True, 8), pixel=gen_data(r, n, True, 8))
+                    pl = dict(kind="call", det=det, model=m, steps=[H(x) for x in steps], time=H(7.0), prefill=pre)
+                    items += [dict(type="inc", dy=True, payloads=[pl], name=hk), dict(type="lin", dy=True, payloads=[pl], name=hk)]
+                    made_c += 1
+                elif made_e < n_exp:
+                    models = [m] + ([gen_model(r, "simple_conversion", det, True)] if hk in PHOTON_KINDS else []) \
+                        + [dict(m="simple_collection")]
+                    start = gen_start(r, True)
+                    end = start + r.randrange(4, 49) / 8.0
+                    end = end + 1.0 if end == 0.0 else end
+                    ta, tb = gen_partition(r, True, start, end, r.randrange(2, 7)), [end]
+                    pa, pb = exposure_payload(det, models, start, ta, True), exposure_payload(det, models, start, tb, True)
+                    items += [dict(type="exp", dy=True, payloads=[pa]), dict(type="pair", dy=True, payloads=[pa, pb])]
+                    made_e += 1
+    return items
+
+
+def search(ctx: Ctx, focus=()):
     """An obligation or the correspondence broke without a concrete failing input: look harder."""
-    ctx.log("searching for a concrete failing input (bigger budget, every subset of the rate models)")
+    ctx.log("searching for a concrete failing input (bigger budget, every subset of the rate models"
+            + (", aimed at the rejected table rows" if focus else "") + ")")
     r = ctx.rng("search")
     subsets = all_subsets()
     r.shuffle(subsets)
-    items = call_items(ctx, r, 6, True)
-    items += exposure_items(ctx, r, 90, 40, 30, True, subsets)
+    items = focus_items(ctx, r, focus) if focus else []
+    items += call_items(ctx, r, 6, True)
+    items = [it for it in items if it["type"] != "rate"]
+    items += exposure_items(ctx, r, 60, 40, 30, True, subsets[:120])
     recs = evaluate(ctx, items, tag="s")
     ctx.cov["search_cases"] = len(recs)
     nb = len(ctx.broken)
@@ -897,6 +1148,8 @@ def replay(ctx: Ctx, rp: dict) -> int:
         print(rp.get("detail", ""))
         return 1
     core.ensure_lib(ctx, targets=core.lib_targets_of([(core.THEORIES / PROP_FILE).read_text()]))
+    if case.get("type") == "rate":
+        translator_leg(ctx)
     it = copy.deepcopy(case)
     recs = evaluate(ctx, [it], tag="replay")
     sub = case.get("sub", 0)
